@@ -306,7 +306,7 @@ def check_symbols(ctx, w):
     tr = expr.assign_trace(f.node, env)
     ns = tr.get('self._num_symbols')
     want = [('=', 'get_number_of_symbols(hash_section)'), ('=', 'get_number_of_symbols(hash_section)'),
-            ('=', expr.spec_nf('(end_ptr - tab_ptr) // _symbol_size'))]
+            ('=', expr.spec_nf('(nearest_ptr - tab_ptr) // _symbol_size'))]
     ctx.ob('E-i', f.construct, 'count assignments', ns == want, got=ns, expected=want)
     hs = tr.get('hash_section')
     ctx.ob('E-i', f.construct, 'hash tables built over this segment at the mapped offsets',
